@@ -97,7 +97,10 @@ func ResetPostRunIterations(iter *Iterations) (hint string) {
 		return
 	}
 
+	// The argument was for the command that has just run, whether
+	// or not it made use of it: it must not apply to the next one.
 	iter.active = false
+	iter.times = ""
 
 	return
 }
